@@ -10,6 +10,7 @@ mod c04;
 mod c05;
 mod c06;
 mod c07;
+mod c09;
 mod c10;
 mod c11;
 mod c12;
@@ -224,6 +225,7 @@ fn main() {
         "C05" => { c05::run(&mut ctx); true }
         "C06" => { c06::run(&mut ctx); true }
         "C07" => { c07::run(&mut ctx); true }
+        "C09" => { c09::run(&mut ctx); true }
         "C10" => { c10::run(&mut ctx); true }
         "C11" => { c11::run(&mut ctx); true }
         "C12" => { c12::run(&mut ctx); true }
